@@ -184,31 +184,24 @@ theorem foldl_reStone_getSeries (c : Int) (stones : List (Nat × Interval))
 
 /-! ### 4. `Db.delete` in function view -/
 
-/-- The per-series stone of `Db.delete`. -/
-def delG (d : Db) (a b : Int) (sel : Option Nat) (s : HSeries) : Option (Nat × Interval) :=
-  if hitSel sel s.idx then
-    match s.phys.head?, s.phys.getLast? with
-    | some f, some l =>
-      some (s.idx, ⟨(clampInterval (clampInterval a b d.minT d.maxT).1 (clampInterval a b d.minT d.maxT).2 f.t l.t).1,
-                    (clampInterval (clampInterval a b d.minT d.maxT).1 (clampInterval a b d.minT d.maxT).2 f.t l.t).2⟩)
-    | _, _ => none
-  else none
-
-theorem delStones_eq (d : Db) (a b : Int) (sel : Option Nat) :
-    delStones d a b sel = d.series.filterMap (delG d a b sel) := rfl
+/-- The per-series stone of `Db.delete` (`stoneOf` of DbDelete.lean). -/
+abbrev delG (d : Db) (a b : Int) (sel : Option Nat) (s : HSeries) : Option (Nat × Interval) :=
+  stoneOf d a b sel s
 
 theorem delG_some {d : Db} {a b : Int} {sel : Option Nat} {s : HSeries} {p : Nat × Interval}
     (h : delG d a b sel s = some p) :
     hitSel sel s.idx = true ∧ ∃ f l, s.phys.head? = some f ∧ s.phys.getLast? = some l ∧
       p = (s.idx, ⟨(clampInterval (clampInterval a b d.minT d.maxT).1 (clampInterval a b d.minT d.maxT).2 f.t l.t).1,
                    (clampInterval (clampInterval a b d.minT d.maxT).1 (clampInterval a b d.minT d.maxT).2 f.t l.t).2⟩) := by
-  unfold delG at h
+  unfold delG stoneOf at h
   split at h
   · rename_i hh
     split at h
     · rename_i f l hf hl
-      simp only [Option.some.injEq] at h
-      exact ⟨hh, f, l, hf, hl, h.symm⟩
+      split at h
+      · simp at h
+      · simp only [Option.some.injEq] at h
+        exact ⟨hh, f, l, hf, hl, h.symm⟩
     · simp at h
   · simp at h
 
